@@ -127,40 +127,76 @@ func (c *Ctx) EXT(rule string) []report.Obligation {
 	}
 	out = append(out, verdict(fresh, rule+"-1", hid+" :: base is deep-cloned before the merge", c.P.InstrPos(ext), why,
 		"ExtendService merges into its first argument; "+why+": the base service is modified in place, so a second service extending the same base (or a different visit order) sees a polluted base"))
-	// EXT-2: returns of the merged service are dominated by delete(merged,"extends") and the memoising store
-	merged := ssa.Value(nil)
-	if v, ok := ext.(ssa.Value); ok {
+	// EXT-2: returns of the merged service are dominated by delete(merged,"extends") and the memoising store.
+	// The function that calls ExtendService may be a step of the resolution: then its only caller in the package
+	// receives the merged service from it, and may be the one that deletes / memoises.
+	var outer *ssa.Function
+	var outerCall *ssa.Call
+	nCallers := 0
+	for _, f := range c.P.Funcs {
+		if f == host || !strings.HasPrefix(c.P.FuncID(f), "loader.") {
+			continue
+		}
+		for _, cs := range callSites(f, func(com *ssa.CallCommon) bool { return com.StaticCallee() == host }) {
+			if cl, ok := cs.(*ssa.Call); ok {
+				nCallers++
+				outer, outerCall = f, cl
+			}
+		}
+	}
+	if nCallers != 1 || c.P.FuncID(outer) == "loader.ApplyExtends" {
+		outer, outerCall = nil, nil
+	}
+	firstResult := func(v ssa.Value) ssa.Value {
 		for _, r := range *v.Referrers() {
 			if ex, ok := r.(*ssa.Extract); ok && ex.Index == 0 {
-				merged = ex
+				return ex
 			}
 		}
+		return nil
 	}
-	var del, memo ssa.Instruction
-	for _, b := range host.Blocks {
-		for _, in := range b.Instrs {
-			if ci, ok := in.(ssa.CallInstruction); ok {
-				if bi, ok := ci.Common().Value.(*ssa.Builtin); ok && bi.Name() == "delete" && ci.Common().Args[0] == merged {
-					if k, _ := prog.ConstString(ci.Common().Args[1]); k == "extends" {
-						del = in
+	merged := ssa.Value(nil)
+	if v, ok := ext.(ssa.Value); ok {
+		merged = firstResult(v)
+	}
+	check2 := func(f *ssa.Function, merged ssa.Value) (okDel, okMemo bool, nret int) {
+		if merged == nil {
+			return false, false, 0
+		}
+		var del, memo ssa.Instruction
+		for _, b := range f.Blocks {
+			for _, in := range b.Instrs {
+				if ci, ok := in.(ssa.CallInstruction); ok {
+					if bi, ok := ci.Common().Value.(*ssa.Builtin); ok && bi.Name() == "delete" && ci.Common().Args[0] == merged {
+						if k, _ := prog.ConstString(ci.Common().Args[1]); k == "extends" {
+							del = in
+						}
 					}
 				}
-			}
-			if mu, ok := in.(*ssa.MapUpdate); ok && stripAssert(mu.Value) == merged {
-				memo = in
+				if mu, ok := in.(*ssa.MapUpdate); ok && stripAssert(mu.Value) == merged {
+					memo = in
+				}
 			}
 		}
+		okDel, okMemo = del != nil, memo != nil
+		for _, r := range returnsOf(f) {
+			if len(r.Results) > 0 && stripAssert(retValue(r, 0)) == merged {
+				nret++
+				if del == nil || !prog.InstrDominates(del, r) {
+					okDel = false
+				}
+				if memo == nil || !prog.InstrDominates(memo, r) {
+					okMemo = false
+				}
+			}
+		}
+		return okDel, okMemo, nret
 	}
-	okDel, okMemo, nret := del != nil, memo != nil, 0
-	for _, r := range returnsOf(host) {
-		if len(r.Results) > 0 && stripAssert(retValue(r, 0)) == merged && merged != nil {
-			nret++
-			if del == nil || !prog.InstrDominates(del, r) {
-				okDel = false
-			}
-			if memo == nil || !prog.InstrDominates(memo, r) {
-				okMemo = false
-			}
+	okDel, okMemo, nret := check2(host, merged)
+	if outer != nil {
+		d2, m2, n2 := check2(outer, firstResult(outerCall))
+		if n2 > 0 && nret > 0 {
+			okDel, okMemo = okDel || d2, okMemo || m2
 		}
 	}
 	out = append(out, verdict(okDel && nret > 0, rule+"-2", hid+" :: extends attribute removed from the result", c.P.Pos(host.Pos()),
@@ -173,6 +209,22 @@ func (c *Ctx) EXT(rule string) []report.Obligation {
 		if f == nil {
 			out = append(out, anchorViolation(rule+"-4", fid))
 			continue
+		}
+		if fid == hid && outer != nil {
+			// the lookups of the base are where the resolution starts: in the caller, when the merge is a step of it
+			hasLookup := false
+			for _, b := range f.Blocks {
+				for _, in := range b.Instrs {
+					if lk, ok := in.(*ssa.Lookup); ok && lk.CommaOk {
+						if _, isConst := prog.ConstString(lk.Index); !isConst {
+							hasLookup = true
+						}
+					}
+				}
+			}
+			if !hasLookup {
+				f = outer
+			}
 		}
 		n := 0
 		for _, b := range f.Blocks {
@@ -273,7 +325,7 @@ func (c *Ctx) EXT(rule string) []report.Obligation {
 				for _, in := range b.Instrs {
 					if mu, ok := in.(*ssa.MapUpdate); ok && l.sameMap(mu.Map) && l.isIterKey(mu.Key) {
 						if ex, ok := mu.Value.(*ssa.Extract); ok {
-							if cl, ok := ex.Tuple.(*ssa.Call); ok && cl.Call.StaticCallee() == host {
+							if cl, ok := ex.Tuple.(*ssa.Call); ok && (cl.Call.StaticCallee() == host || (outer != nil && cl.Call.StaticCallee() == outer)) {
 								good = true
 							}
 						}
